@@ -465,7 +465,7 @@ class OracleGeo:
                 best = (dist, x)
         return best
 
-    def nearest_dirs(self, p, guard=1e-6):
+    def nearest_dirs(self, p, guard=1e-6, kmax=5):
         """For an interior point p: for every surface of every unit on p's chain of universes, a point
         of that surface near p (see _closest_on_surface) as (distance, unit direction in the GLOBAL
         frame, level, surface type), sorted by distance.  Each distance is an upper bound of the
@@ -491,7 +491,13 @@ class OracleGeo:
                 nx, ny, nz = u["dims"]
                 daughter = u["daughters"][(cell[0] * ny + cell[1]) * nz + cell[2]]
             else:
-                for st, d in u["surfaces"]:
+                # only the kmax surfaces nearest by the first-order estimate |f|/|grad f| are refined
+                est = []
+                for si, (st, d) in enumerate(u["surfaces"]):
+                    f, g = surf_eval(st, d, P[None, :])
+                    est.append((abs(f[0]) / max(g[0], _TINY), si))
+                for _e, si in sorted(est)[:kmax]:
+                    st, d = u["surfaces"][si]
                     c = self._closest_on_surface(st, d, P)
                     if c is not None and c[0] > 0:
                         out.append((c[0], Rup @ ((c[1] - P) / c[0]), level, st))
